@@ -37,24 +37,37 @@ structure Shoot where
   sleep : Int
   deriving Repr, DecidableEq
 
-def parseShootName (shoot : Bytes) : Res Shoot := do
-  let (name, args) ← parseStringFunc shoot
-  let args := args.getD []
-  let mut cnt : Int := 1
-  if args.length > 0 then
-    let a0 ← indexC args 0
-    if !a0.isEmpty then
-      match atoi a0 with
-      | none => return ← (.err "count" : Res Shoot)
-      | some n => cnt := n
-  let mut sleep : Int := 0
-  if args.length > 1 then
-    let a1 ← indexC args 1
-    if !a1.isEmpty then
-      match atoi a1 with
-      | none => return ← (.err "count" : Res Shoot)
-      | some n => sleep := n
-  .ok ⟨name, cnt, sleep⟩
+/-- `args[i]` parsed as a count when present and non-empty, else the default -/
+def argInt (args : List Bytes) (i : Nat) (dflt : Int) : Res Int :=
+  if args.length > i then
+    match indexC args i with
+    | .ok a =>
+      if a.isEmpty then .ok dflt
+      else match atoi a with
+        | none => .err "count"
+        | some n => .ok n
+    | .err c => .err c
+    | .panic w => .panic w
+    | .fatal w => .fatal w
+  else .ok dflt
+
+def parseShootName (shoot : Bytes) : Res Shoot :=
+  match parseStringFunc shoot with
+  | .ok (name, args) =>
+    let args := args.getD []
+    match argInt args 0 1 with
+    | .ok cnt =>
+      match argInt args 1 0 with
+      | .ok sleep => .ok ⟨name, cnt, sleep⟩
+      | .err c => .err c
+      | .panic w => .panic w
+      | .fatal w => .fatal w
+    | .err c => .err c
+    | .panic w => .panic w
+    | .fatal w => .fatal w
+  | .err c => .err c
+  | .panic w => .panic w
+  | .fatal w => .fatal w
 
 /-! ### `convertScenarioToAmmo` (components/providers/scenario/{http,grpc}/decode.go) -/
 
@@ -98,22 +111,24 @@ def kwNext : Bytes := [110, 101, 120, 116]
 def kwRand : Bytes := [114, 97, 110, 100]
 def kwLast : Bytes := [108, 97, 115, 116]
 
+def isKw (s : Bytes) : Bool := s = kwNext ∨ s = kwRand ∨ s = kwLast
+
 /-- `calcIndex(indexStr, segment, length, iter)`: `next` is what `iter.Next(segment)` returns, `rnd` the raw random number -/
-def calcIndex (fixed : Bool) (indexStr : Bytes) (length : Int) (next : Int) (rnd : Nat) : Res Int := do
-  let kw := indexStr = kwNext ∨ indexStr = kwRand ∨ indexStr = kwLast
+def calcIndex (fixed : Bool) (indexStr : Bytes) (length : Int) (next : Int) (rnd : Nat) : Res Int :=
   let parsed := atoi indexStr
-  if parsed.isNone ∧ ¬ kw then .err "index" else
-  if fixed ∧ length ≤ 0 then .err "empty" else
-  if ¬ kw then
+  if parsed.isNone && !isKw indexStr then .err "index"
+  else if fixed && decide (length ≤ 0) then .err "empty"
+  else if !isKw indexStr then
     let index := parsed.getD 0
     if 0 ≤ index ∧ index < length then .ok index
     else
-      let index ← tmodC index length
-      .ok (if index < 0 then index + length else index)
+      match tmodC index length with
+      | .ok index => .ok (if index < 0 then index + length else index)
+      | r => r
   else if indexStr = kwLast then .ok (length - 1)
   else if indexStr = kwRand then intnC length rnd
-  else
-    if next ≥ length then tmodC next length else .ok next
+  else if next ≥ length then tmodC next length
+  else .ok next
 
 /-- template variables: scalars, maps, slices (`valid` = one of the seven slice types `extractFromSlice` accepts) -/
 inductive Val where
@@ -134,19 +149,21 @@ def iterNext (st : IterState) (seg : Bytes) : Int × IterState :=
 /-- does this index string consult the iterator's `Next`? (only then the counter advances) -/
 def usesNext (indexStr : Bytes) : Bool := indexStr = kwNext
 
+def Res.castFail {α β : Type} : Res α → Res β
+  | .ok _ => .panic "castFail"
+  | .err c => .err c
+  | .panic w => .panic w
+  | .fatal w => .fatal w
+
 def extractFromSlice (fixed : Bool) (cur : Val) (indexStr curSeg : Bytes) (st : IterState) (rnd : Nat) : Res Val × IterState :=
   match cur with
   | .arr true elems =>
-    -- Go evaluates iter.Next only on the `next` path of calcIndex
-    let pre := atoi indexStr
-    let kw := indexStr = kwNext ∨ indexStr = kwRand ∨ indexStr = kwLast
-    let reachesNext : Bool := usesNext indexStr && !(fixed && elems.length == 0) && !(pre.isNone && !kw)
+    -- Go evaluates iter.Next only on the `next` path of calcIndex (after the emptiness check of the repaired code)
+    let reachesNext : Bool := usesNext indexStr && !(fixed && elems.length == 0)
     let (nx, st') := if reachesNext then iterNext st curSeg else (0, st)
     match calcIndex fixed indexStr elems.length nx rnd with
     | .ok i => (indexC elems i, st')
-    | .err c => (.err c, st')
-    | .panic w => (.panic w, st')
-    | .fatal w => (.fatal w, st')
+    | r => (r.castFail, st')
   | _ => (.err "type", st)
 
 structure MpState where
@@ -154,28 +171,29 @@ structure MpState where
   seg : Bytes            -- `curSegment` builder
   st : IterState
 
-/-- the loop of `GetMapValue` over the path segments; `last` tells whether a segment is the final one -/
+/-- the loop of `GetMapValue` over the path segments -/
 def getGo (fixed : Bool) (rnd : Nat) : List Bytes → MpState → Res Val × IterState
   | [], s => (.ok (.map s.cur), s.st)
   | segment :: rest, s =>
     let segment := trimSpace segment
     let curSeg := s.seg ++ 46 :: segment
     let isLast := rest.isEmpty
-    if (indexByte segment 91 ≠ -1) && hasSuffix segment [93] then
+    if decide (indexByte segment 91 ≠ -1) && hasSuffix segment [93] then
       let openBraceIdx := indexByte segment 91
-      match sliceC segment (openBraceIdx + 1) ((segment.length : Int) - 1), sliceC segment 0 openBraceIdx with
-      | .ok inner, .ok key =>
-        let indexStr := asciiLower (trimSpace inner)
-        match s.cur.lookup key with
-        | none => (.err "notfound", s.st)
-        | some pathVal =>
-          match extractFromSlice fixed pathVal indexStr curSeg s.st rnd with
-          | (.ok (.map m), st') => getGo fixed rnd rest { cur := m, seg := curSeg, st := st' }
-          | (.ok v, st') => if isLast then (.ok v, st') else (.err "notlast", st')
-          | (r, st') => (r, st')
-      | .panic w, _ => (.panic w, s.st)
-      | _, .panic w => (.panic w, s.st)
-      | _, _ => (.panic "unreachable", s.st)
+      match sliceC segment (openBraceIdx + 1) ((segment.length : Int) - 1) with
+      | .ok inner =>
+        match sliceC segment 0 openBraceIdx with
+        | .ok key =>
+          let indexStr := asciiLower (trimSpace inner)
+          match s.cur.lookup key with
+          | none => (.err "notfound", s.st)
+          | some pathVal =>
+            match extractFromSlice fixed pathVal indexStr curSeg s.st rnd with
+            | (.ok (.map m), st') => getGo fixed rnd rest { cur := m, seg := curSeg, st := st' }
+            | (.ok v, st') => if isLast then (.ok v, st') else (.err "notlast", st')
+            | (r, st') => (r, st')
+        | r => (r.castFail, s.st)
+      | r => (r.castFail, s.st)
     else
       match s.cur.lookup segment with
       | none => (.err "notfound", s.st)
@@ -311,31 +329,39 @@ inductive PoolsVal where
   | list (items : List PoolItem)
   deriving Repr, DecidableEq
 
-/-- the massage loop: afterwards every mapping has `discard_overflow`; result = the value handed to DecodeAndValidate -/
+def PoolItem.isMapping : PoolItem → Bool
+  | .mapping _ => true
+  | .other => false
+
+/-- the loop over the pools: every mapping gets `discard_overflow` -/
+def massageItems (fixed : Bool) : List PoolItem → Res (List PoolItem)
+  | [] => .ok []
+  | .mapping _ :: rest =>
+    match massageItems fixed rest with
+    | .ok r => .ok (.mapping true :: r)
+    | r => r
+  | .other :: rest =>
+    if fixed then
+      match massageItems fixed rest with
+      | .ok r => .ok (.other :: r)
+      | r => r
+    else .panic "interface conversion: not map[string]interface {}"
+
+/-- the massage of `readConfig`; result = the pools value handed to DecodeAndValidate -/
 def massagePools (fixed : Bool) (p : PoolsVal) : Res PoolsVal :=
   match p with
   | .list items =>
-    let rec go : List PoolItem → Res (List PoolItem)
-      | [] => .ok []
-      | .mapping _ :: rest => do
-        let r ← go rest
-        .ok (.mapping true :: r)
-      | .other :: rest =>
-        if fixed then do
-          let r ← go rest
-          .ok (.other :: r)
-        else .panic "interface conversion: not map[string]interface {}"
-    match go items with
+    match massageItems fixed items with
     | .ok l => .ok (.list l)
-    | .err c => .err c
-    | .panic w => .panic w
-    | .fatal w => .fatal w
-  | v => if fixed then .ok v else .panic "interface conversion: not []interface {}"
+    | r => r.castFail
+  | .absent => if fixed then .ok .absent else .panic "interface conversion: not []interface {}"
+  | .notList => if fixed then .ok .notList else .panic "interface conversion: not []interface {}"
 
 /-- what DecodeAndValidate then says about a pools value none of whose pools is complete
 (`validate:"required,dive"`): only a list of mappings can get past the type checks -/
 def poolsAcceptable : PoolsVal → Bool
-  | .list items => items.all fun i => i matches .mapping _
-  | _ => false
+  | .list items => items.all PoolItem.isMapping
+  | .absent => false
+  | .notList => false
 
 end Pandora.Model.C13
